@@ -145,7 +145,7 @@ def pick_steps(trace, kmax, rng):
 def _worker(args):
     scn, kmax, idx = args
     sys.path.insert(0, ROOT)
-    from harness import cases, createcases, drive, evcases, initcases
+    from harness import cases, createcases, drive, evcases, initcases, stepcases
     trace = drive.run(scn)
     cf = cases.CaseFile()
     info = {"steps_checked": []}
@@ -160,6 +160,7 @@ def _worker(args):
             st = trace["steps"][i]
             cases.econ_checks(cf, P, trace["init"], st, scn["id"])
             evcases.event_checks(cf, P, trace, st, scn["id"])
+            stepcases.step_checks(cf, P, trace, st, scn["id"])
             info["steps_checked"].append(st["t"])
         evcases.register_checks(cf, P, trace, scn["id"])
         createcases.create_tracker_checks(cf, P, trace, scn["id"])
